@@ -1241,7 +1241,7 @@ Definition w_pair (snd_ : N -> reply0 -> outcome sent) (r : reply0) : bytes :=
 Definition w_send := send hardcoded_error_body (fun h => h).
 Definition w_send_v0 := send_v0 hardcoded_error_body (fun h => h).
 
-(** a handler that answers 204 with a body: before the repair b4638db the body was written and the strict
+(** a handler that answers 204 with a body: before the repair 89e2956 the body was written and the strict
     client lost the framing; now it is dropped *)
 Definition w_204 : reply0 := mkR0 11 204 [] (B "oops") (Some None) None.
 Lemma bodyless_with_body_witness :
@@ -1251,7 +1251,7 @@ Lemma bodyless_with_body_witness :
 Proof. split; eexists; (split; [vm_compute; reflexivity|]); vm_compute; repeat split. Qed.
 
 (** a streamed reply (announced length 11, the future writes "hello " and "world"): before the repair
-    537474e the future ran for HEAD too *)
+    d63bba7 the future ran for HEAD too *)
 Definition w_stream : reply0 :=
   mkR0 11 200 [(B "content-type", B "text/plain")] [] (Some None) (Some (Some 11, [B "hello "; B "world"])).
 Lemma head_stream_v0_witness :
@@ -1260,7 +1260,7 @@ Lemma head_stream_v0_witness :
     = Some [(200, []); (200, B "hello world")].
 Proof. vm_compute. split; reflexivity. Qed.
 
-(** a stream of unknown length: before the repair feabc71 it went out without a length on a connection
+(** a stream of unknown length: before the repair 7334433 it went out without a length on a connection
     announced and kept as keep-alive - no client can tell where it ends; now the head says close and the
     server closes after it *)
 Definition w_nolen : reply0 :=
@@ -1274,7 +1274,7 @@ Lemma unframed_stream_v0_witness :
 Proof. split; eexists; (split; [vm_compute; reflexivity|]); vm_compute; repeat split. Qed.
 
 (** a reply that carries [transfer-encoding] (a reverse proxy passing on its upstream's header): before the
-    repair c151144 it went out beside [content-length] *)
+    repair 3c296af it went out beside [content-length] *)
 Definition w_te : reply0 :=
   mkR0 11 200 [(B "content-type", B "text/plain"); (B "transfer-encoding", B "chunked")] (B "with te") (Some None) None.
 Lemma te_with_length_v0_witness :
@@ -1284,7 +1284,7 @@ Lemma te_with_length_v0_witness :
 Proof. split; eexists; (split; [vm_compute; reflexivity|]); vm_compute; repeat split. Qed.
 
 (** [extensions::stream_body] announces what it sends, for every file and every request (after the repair
-    1d0a5e7; before, a range that reaches past the end of the file announced bytes that never came) *)
+    4cb2e2f; before, a range that reaches past the end of the file announced bytes that never came) *)
 Lemma stream_body_announces_lemma content r :
   fst (stream_body_future true content r) = Some (N.of_nat (length (concat (snd (stream_body_future true content r))))).
 Proof.
